@@ -65,6 +65,9 @@ def gen_component(rng):
         s = "".join(chr(rng.randrange(0x10000, 0x1FFFF)) for _ in range(n))
     elif k < 0.9:
         s = "".join(chr(rng.randrange(1, 0x20)) for _ in range(n))
+    elif k < 0.93:
+        # a Latin-1 character directly followed by a character whose code point is a multiple of 256
+        s = "".join(chr(rng.randrange(0x61, 0x7B)) + chr(rng.choice([0x100, 0x400, 0x3000, 0x4E00, 0x5000, 0xFF00])) for _ in range(max(1, n // 2)))
     elif k < 0.95:
         s = "." + "".join(chr(rng.randrange(0x61, 0x7B)) for _ in range(n))
     else:
